@@ -350,8 +350,10 @@ pub fn n_steps(max: usize) -> BoxedStrategy<usize> {
 
 pub fn comment_s() -> BoxedStrategy<String> {
     prop_oneof![
-        8 => Just(String::new()),
-        2 => "[A-Za-z0-9 _.;:()áñ-]{1,12}".prop_map(|s| s.trim().to_string()),
+        32 => Just(String::new()),
+        8 => "[A-Za-z0-9 _.;:()áñ-]{1,12}".prop_map(|s| s.trim().to_string()),
+        // words the program gives (or once gave) a meaning to: they are part of what a line declares
+        1 => select(vec!["CTEEPBD_EXCLUYE_SCOP_ACS", "BdC aire-agua CTEEPBD_EXCLUYE_SCOP_ACS", "CTEEPBD_AUX", "bomba CTEEPBD_EXCLUYE_AUX_ACS x", "CTEEPBD_"]).prop_map(|s| s.to_string()),
     ]
     .boxed()
 }
